@@ -195,6 +195,14 @@ def main():
         bad = merge_check(text)
         if bad:
             r["merge_mismatch"] = bad
+        # oracle hypothesis of the checker soundness theorem: these regexes never match the empty string
+        import re
+        for pat in req.get("nonempty", []):
+            for o in shared:
+                if o[0] == "re" and o[1] == pat:
+                    rx = re.compile(o[1], o[2])
+                    if any((m := rx.match(text, q)) is not None and m.end() == q for q in range(len(text) + 1)):
+                        r.setdefault("empty_match", []).append(pat)
         out.append(r)
     json.dump(out, sys.stdout)
 
